@@ -89,7 +89,9 @@ def ds_sexp(spec):
     return "(ds %s (%s))" % (hx(spec["name"]), " ".join(var_sexp(v) for v in spec["vars"]))
 
 
-def build(spec):
+def build(spec, lazy=False):
+    """`lazy`: sequences with at least one record are served from a lazy row stream that already carries a record
+    range (`IterData(rows_with_a_leading_extra_row, seq)[1:]`): same declared content, other backend"""
     from pydap.model import BaseType, DatasetType, GridType, SequenceType, StructureType
 
     def mk(b):
@@ -115,7 +117,14 @@ def build(spec):
             s = SequenceType(v["name"])
             for n, t in v["cols"]:
                 s[n] = BaseType(n)
-            s.data = np.array([tuple(r) for r in v["rows"]], dtype=[(n, t) for n, t in v["cols"]]).view(np.recarray)
+            if lazy and v["rows"]:
+                from pydap.handlers.lib import IterData
+                typed = [tuple(np.dtype(t).type(x) for x, (n, t) in zip(r, v["cols"])) for r in v["rows"]]
+                # lazy == "ranged": the stream already carries a record range (IterData applies slices after filters,
+                # so such a dataset is only asked selection-free constraints)
+                s.data = IterData([typed[0]] + typed, s)[1:] if lazy == "ranged" else IterData(typed, s)
+            else:
+                s.data = np.array([tuple(r) for r in v["rows"]], dtype=[(n, t) for n, t in v["cols"]]).view(np.recarray)
             ds[v["name"]] = s
     return ds
 
